@@ -140,8 +140,8 @@ class MachO(BinFormat):
         takes a struct_fat_arch instance and sets its 'bin' attribute
         to the corresponding MachO instance.
         """
-        self.__f.seek(a.offset)
-        data = self.__f.read(a.size)
+        self.__file.seek(a.offset)
+        data = self.__file.read(a.size)
         a.bin = MachO(DataIO(data))
 
     def read_commands(self, offset):
